@@ -24,6 +24,8 @@ VARIANTS = {
                  ld=["-fsanitize=address,undefined"]),
     "tsan": dict(cc="clang", cflags=["-O1", "-g", "-fno-omit-frame-pointer", "-fsanitize=thread"],
                  ld=["-fsanitize=thread"]),
+    "msan": dict(cc="clang", cflags=["-O1", "-g", "-fno-omit-frame-pointer", "-fsanitize=memory", "-fsanitize-memory-track-origins=1", "-fsanitize-recover=memory"],
+                 ld=["-fsanitize=memory"]),
     # compile with the TSan instrumentation pass only; linked against harness/accrt.c
     "acc": dict(cc="clang", cflags=["-O1", "-g", "-fno-omit-frame-pointer", "-fsanitize=thread"], ld=[]),
 }
